@@ -97,7 +97,8 @@ structure Lists where
   deriving DecidableEq, Repr
 
 structure Mesh where
-  depot : List Op := []
+  depot : List Op := []        -- the operations of all depot entities, flattened in order
+  groups : List Nat := []      -- how many operations each depot entity (Operation: 1; Shape / Stack / Assembly: n) holds
   deleted : List Nat := []
   lists : Lists := {}
   modified : List String := []
@@ -252,9 +253,21 @@ def assembleLoop (slaves : List String) (deleted : List Nat) : List Op → Lists
   | [], l => l
   | o :: rest, l => assembleLoop slaves deleted rest (if o.id ∈ deleted then l else addOp slaves l o)
 
+/-- the depot as the list of its entities: `groups` cuts the flat list (anything left over is one more entity) -/
+def splitGroups {α : Type} : List Nat → List α → List (List α)
+  | [], xs => if xs.isEmpty then [] else [xs]
+  | n :: ns, xs => xs.take n :: splitGroups ns (xs.drop n)
+
+def entities (m : Mesh) : List (List Op) := splitGroups m.groups m.depot
+
+/-- the outer loop of `Mesh.assemble`: `for entity in self.depot: for operation in entity.operations: …` -/
+def assembleEntities (slaves : List String) (deleted : List Nat) : List (List Op) → Lists → Lists
+  | [], l => l
+  | e :: rest, l => assembleEntities slaves deleted rest (assembleLoop slaves deleted e l)
+
 /-- `Mesh.assemble` -/
 def assemble (m : Mesh) : Mesh :=
-  { m with lists := assembleLoop (slavePatches m) m.deleted m.depot m.lists }
+  { m with lists := assembleEntities (slavePatches m) m.deleted (entities m) m.lists }
 
 /-- `Mesh.clear` (the patch list keeps its entries, see `clearPatches`) -/
 def clear (m : Mesh) : Mesh :=
@@ -262,7 +275,10 @@ def clear (m : Mesh) : Mesh :=
 
 def isAssembled (m : Mesh) : Bool := !m.lists.verts.isEmpty
 
-def add (m : Mesh) (o : Op) : Mesh := { m with depot := m.depot ++ [o] }
+def add (m : Mesh) (o : Op) : Mesh := { m with depot := m.depot ++ [o], groups := m.groups ++ [1] }
+
+/-- `mesh.add(entity)` for a Shape / Stack / Assembly: its operations in order, as one depot entity -/
+def addEntity (m : Mesh) (ops : List Op) : Mesh := { m with depot := m.depot ++ ops, groups := m.groups ++ [ops.length] }
 def delete (m : Mesh) (id : Nat) : Mesh := { m with deleted := id :: m.deleted }
 def mergePatches (m : Mesh) (master slave : String) : Mesh := { m with merged := m.merged ++ [(master, slave)] }
 def setDefault (m : Mesh) (name kind : String) : Mesh := { m with dflt := some (name, kind) }
@@ -369,6 +385,7 @@ def written (m : Mesh) : Except Err String := (write m).2
 inductive Step where
   | add (o : Op)
   | readd (id : Nat)   -- `mesh.add(op)` for an object that is in the depot already
+  | addEntity (ops : List Op)   -- `mesh.add(shape)`: one depot entity with several operations
   | delete (id : Nat)
   | assemble
   | clear
@@ -386,6 +403,7 @@ def step (m : Mesh) : Step → Mesh
   | .readd id => match m.depot.find? (fun o => o.id = id) with
       | some o => add m o
       | none => m
+  | .addEntity ops => addEntity m ops
   | .delete id => delete m id
   | .assemble => assemble m
   | .clear => clear m
@@ -438,6 +456,10 @@ def parseOp? (f : List String) : Option Op :=
   | _ => none
 
 def parseStep? (s : String) : Option Step :=
+  if s.startsWith "ent@" then
+    -- `ent@<op>@<op>…`, every `<op>` as after `add!`
+    ((s.splitOn "@").drop 1).mapM (fun o => parseOp? (o.splitOn "!")) |>.map Step.addEntity
+  else
   match s.splitOn "!" with
   | "add" :: rest => (parseOp? rest).map Step.add
   | ["again", id] => (id.toNat?).map Step.readd
